@@ -64,3 +64,16 @@ pub(crate) trait MarketUtils<const DECIMALS: u8>: BaseMarket<DECIMALS> {
 }
 
 impl<M: BaseMarket<DECIMALS> + ?Sized, const DECIMALS: u8> MarketUtils<DECIMALS> for M {}
+
+/// Public entry to the crate-private [`MarketUtils::cap_pnl`], used only by the solver-based
+/// checks in `/verif` (`--cfg gmsol_verif`).
+#[cfg(gmsol_verif)]
+pub fn verif_cap_pnl<M: BaseMarket<DECIMALS> + ?Sized, const DECIMALS: u8>(
+    market: &M,
+    is_long: bool,
+    pnl: &M::Signed,
+    pool_value: &M::Num,
+    kind: PnlFactorKind,
+) -> crate::Result<M::Signed> {
+    market.cap_pnl(is_long, pnl, pool_value, kind)
+}
